@@ -353,8 +353,35 @@ Definition is_go_space (c : N) : bool :=  (* strings.TrimSpace, ASCII part *)
   is_space c || N.eqb c 11.
 Definition trim_space (s : bytes) : bytes :=
   rev (skip_while is_go_space (rev (skip_while is_go_space s))).
-Definition index_predicate (stmt : bytes) : option bytes :=
+(** before the fix "sqlite inspection finds the predicate of a partial index after the closing
+    parenthesis of the index parts": strings.Index(stmt, <dq>WHERE<dq>) *)
+Definition index_predicate_old (stmt : bytes) : option bytes :=
   match index_of K_WHERE stmt with
+  | Some r => Some (trim_space r)
+  | None => None
+  end.
+(** since the fix: reIdxWhere = (?is)\)\s{0,}WHERE\s+(.+)$ , leftmost match, TrimSpace of the group.
+    [where_at]: a match starts here -- ")" , spaces, WHERE in any case, one white-space byte and at least one
+    more byte ("." matches newlines too); whatever way \s+ and .+ share the white space, TrimSpace of the
+    group is TrimSpace of everything after the keyword *)
+Definition where_at (s : bytes) : option bytes :=
+  match s with
+  | c :: r =>
+      if N.eqb c ch_rp then
+        match lit_ci K_WHERE (skip_while is_space r) with
+        | Some (c1 :: c2 :: r2) => if is_space c1 then Some (c1 :: c2 :: r2) else None
+        | _ => None
+        end
+      else None
+  | [] => None
+  end.
+Fixpoint find_where (s : bytes) : option bytes :=
+  match where_at s with
+  | Some x => Some x
+  | None => match s with [] => None | _ :: s' => find_where s' end
+  end.
+Definition index_predicate (stmt : bytes) : option bytes :=
+  match find_where stmt with
   | Some r => Some (trim_space r)
   | None => None
   end.
